@@ -414,7 +414,7 @@ func (n *not) Execute(searcher index.GetSearcher, seriesID common.SeriesID, tr *
 	if err != nil {
 		return nil, nil, err
 	}
-	list, listTS, err := n.Inner.Execute(searcher, seriesID, tr)
+	list, _, err := n.Inner.Execute(searcher, seriesID, tr)
 	if err != nil {
 		return nil, nil, err
 	}
@@ -422,10 +422,9 @@ func (n *not) Execute(searcher index.GetSearcher, seriesID common.SeriesID, tr *
 	if err != nil {
 		return nil, nil, err
 	}
-	err = allTS.Difference(listTS)
-	if err != nil {
-		return nil, nil, err
-	}
+	// The timestamps only narrow the time range that is scanned.  The inner filter's timestamps must not be
+	// subtracted from them: an element the negation selects may share its timestamp with an element the inner
+	// filter matched, and removing that timestamp would shrink the range below the selected element.
 	return all, allTS, err
 }
 
